@@ -55,38 +55,102 @@ theorem recv_handleRtcp_inv (r : Receiver) (hr : RecvInv r) (p : RtcpPacket) : R
   · exact ⟨hr.jb, hr.stats, hr.ts, hr.nack⟩
   · exact hr
 
-/-- `RTCRtpSender._handle_rtcp_packet` never raises: the only parser it calls (`unpack_remb_fci`) is inside
-`try … except ValueError`, and the parser raises nothing else. -/
-theorem sender_handleRtcp_total (s : Sender) (p : RtcpPacket) : ∃ s' e, s.handleRtcp p = .ok (s', e) := by
+/-- Sender invariant: the RTX sequence number is a 16-bit number (what `RtpPacket.serialize` can pack).
+`random_sequence_number()` establishes it, `uint16_add` keeps it. -/
+def SenderInv (s : Sender) : Prop := Props.C17.R16 s.rtxSequenceNumber
+
+theorem seqPackable_of_r16 {n : Int} (h : Props.C17.R16 n) : seqPackable n = true := by
+  unfold seqPackable
+  have h1 := h.1
+  have h2 := h.2
+  simp only [decide_eq_true_eq]
+  omega
+
+/-- `_retransmit` with a bump that stays in the 16-bit range: returns, at most one packet sent, invariant kept. -/
+theorem retransmitWith_total (bump : Int → Int) (hb : ∀ n, Props.C17.R16 n → Props.C17.R16 (bump n))
+    (s : Sender) (hs : SenderInv s) (seq : Nat) :
+    ∃ s' e, s.retransmitWith bump seq = .ok (s', e) ∧ SenderInv s' ∧ e.length ≤ 1 := by
+  unfold Sender.retransmitWith
+  split
+  · exact ⟨_, _, rfl, hs, by simp⟩
+  · split
+    · split
+      · rw [if_pos (seqPackable_of_r16 hs)]
+        exact ⟨_, _, rfl, hb _ hs, by simp⟩
+      · exact ⟨_, _, rfl, hs, by simp⟩
+    · exact ⟨_, _, rfl, hs, by simp⟩
+
+theorem retransmitAllWith_total (bump : Int → Int) (hb : ∀ n, Props.C17.R16 n → Props.C17.R16 (bump n)) :
+    ∀ (lost : List Nat) (s : Sender), SenderInv s →
+    ∃ s' e, s.retransmitAllWith bump lost = .ok (s', e) ∧ SenderInv s' ∧ e.length ≤ lost.length := by
+  intro lost
+  induction lost with
+  | nil => intro s hs; exact ⟨s, [], rfl, hs, by simp⟩
+  | cons a rest ih =>
+    intro s hs
+    unfold Sender.retransmitAllWith
+    obtain ⟨s1, e1, h1, hs1, hl1⟩ := retransmitWith_total bump hb s hs a
+    rw [h1]
+    simp only
+    obtain ⟨s2, e2, h2, hs2, hl2⟩ := ih s1 hs1
+    rw [h2]
+    refine ⟨_, _, rfl, hs2, ?_⟩
+    simp only [List.length_append, List.length_cons]
+    omega
+
+theorem uint16_bump_r16 : ∀ n, Props.C17.R16 n → Props.C17.R16 ((fun n => uint16_add n 1) n) :=
+  fun n _ => Props.C17.uint16_add_range n 1
+
+theorem retransmitAll_total (s : Sender) (hs : SenderInv s) (lost : List Nat) :
+    ∃ s' e, s.retransmitAll lost = .ok (s', e) ∧ SenderInv s' ∧ e.length ≤ lost.length :=
+  retransmitAllWith_total _ uint16_bump_r16 lost s hs
+
+/-- `RTCRtpSender._handle_rtcp_packet` never raises on a sender whose RTX sequence number is a 16-bit number: the only
+parser it calls (`unpack_remb_fci`) is inside `try … except ValueError` and raises nothing else, and every
+retransmitted packet can be serialised. -/
+theorem sender_handleRtcp_total (s : Sender) (hs : SenderInv s) (p : RtcpPacket) :
+    ∃ s' e, s.handleRtcp p = .ok (s', e) ∧ SenderInv s' := by
   unfold Sender.handleRtcp
   split
-  · exact ⟨_, _, rfl⟩
-  · exact ⟨_, _, rfl⟩
-  · split <;> exact ⟨_, _, rfl⟩
+  · exact ⟨_, _, rfl, hs⟩
+  · exact ⟨_, _, rfl, hs⟩
   · split
-    · exact ⟨_, _, rfl⟩
+    · rename_i lost _
+      obtain ⟨s', e, h, hs', _⟩ := retransmitAll_total s hs lost
+      exact ⟨s', e, h, hs'⟩
+    · exact ⟨_, _, rfl, hs⟩
+  · split
+    · exact ⟨_, _, rfl, hs⟩
     · split
       · rename_i fci _ _
         rcases unpackRemb_safe fci with h | ⟨a, h⟩
-        · rw [h]; exact ⟨_, _, rfl⟩
-        · rw [h]; exact ⟨_, _, rfl⟩
-      · exact ⟨_, _, rfl⟩
-  · exact ⟨_, _, rfl⟩
+        · rw [h]; exact ⟨_, _, rfl, hs⟩
+        · rw [h]; exact ⟨_, _, rfl, hs⟩
+      · exact ⟨_, _, rfl, hs⟩
+  · exact ⟨_, _, rfl, hs⟩
 
-/-- Every receiver object of the transport satisfies its invariant. -/
-def TransportInv (t : Transport) : Prop := ∀ i, RecvInv (t.receivers i)
+/-- Every receiver object and every sender object of the transport satisfies its invariant. -/
+def TransportInv (t : Transport) : Prop := (∀ i, RecvInv (t.receivers i)) ∧ ∀ i, SenderInv (t.senders i)
 
 theorem setReceiver_inv {t : Transport} (h : TransportInv t) (i : Nat) (r : Receiver) (hr : RecvInv r) :
     TransportInv (t.setReceiver i r) := by
+  refine ⟨?_, fun j => h.2 j⟩
   intro j
   unfold Transport.setReceiver
   simp only
   split
   · exact hr
-  · exact h j
+  · exact h.1 j
 
-theorem setSender_inv {t : Transport} (h : TransportInv t) (i : Nat) (s : Sender) :
-    TransportInv (t.setSender i s) := fun j => h j
+theorem setSender_inv {t : Transport} (h : TransportInv t) (i : Nat) (s : Sender) (hs : SenderInv s) :
+    TransportInv (t.setSender i s) := by
+  refine ⟨fun j => h.1 j, ?_⟩
+  intro j
+  unfold Transport.setSender
+  simp only
+  split
+  · exact hs
+  · exact h.2 j
 
 theorem deliverRtcp_total (p : RtcpPacket) : ∀ (rs : List Router.Recipient) (t : Transport), TransportInv t →
     ∃ t' e, deliverRtcp t p rs = .ok (t', e) ∧ TransportInv t' ∧ t'.router = t.router ∧ t'.ids = t.ids
@@ -101,15 +165,15 @@ theorem deliverRtcp_total (p : RtcpPacket) : ∀ (rs : List Router.Recipient) (t
       unfold deliverRtcp
       simp only
       obtain ⟨t', e, h, hinv, h1, h2, h3⟩ := ih (t.setReceiver i ((t.receivers i).handleRtcp p).1)
-        (setReceiver_inv ht i _ (recv_handleRtcp_inv _ (ht i) p))
+        (setReceiver_inv ht i _ (recv_handleRtcp_inv _ (ht.1 i) p))
       rw [h]
       exact ⟨_, _, rfl, hinv, h1, h2, h3⟩
     | sender i =>
       unfold deliverRtcp
-      obtain ⟨s', e1, hs⟩ := sender_handleRtcp_total (t.senders i) p
+      obtain ⟨s', e1, hs, hinvs⟩ := sender_handleRtcp_total (t.senders i) (ht.2 i) p
       rw [hs]
       simp only
-      obtain ⟨t', e, h, hinv, h1, h2, h3⟩ := ih (t.setSender i s') (setSender_inv ht i s')
+      obtain ⟨t', e, h, hinv, h1, h2, h3⟩ := ih (t.setSender i s') (setSender_inv ht i s' hinvs)
       rw [h]
       exact ⟨_, _, rfl, hinv, h1, h2, h3⟩
 
@@ -155,13 +219,13 @@ theorem handleRtpData_total (env : Env) (remb : Bool) (henv : env.rbeOut = .ok r
     cases hroute : Router.routeRtp t.router p.ssrc p.payloadType with
     | mk router o =>
       cases o with
-      | none => exact ⟨_, _, _, rfl, fun i => ht i, by omega⟩
+      | none => exact ⟨_, _, _, rfl, ⟨fun i => ht.1 i, fun i => ht.2 i⟩, by omega⟩
       | some i =>
         simp only
-        obtain ⟨r', e, n, hh, hinv, hn⟩ := handleRtp_total (t.receivers i) (ht i) p hp env.clock remb
+        obtain ⟨r', e, n, hh, hinv, hn⟩ := handleRtp_total (t.receivers i) (ht.1 i) p hp env.clock remb
         rw [henv, hh]
         refine ⟨_, _, _, rfl, ?_, hn⟩
-        exact setReceiver_inv (t := { t with router := router }) (fun j => ht j) i r' hinv
+        exact setReceiver_inv (t := { t with router := router }) ⟨fun j => ht.1 j, fun j => ht.2 j⟩ i r' hinv
 
 /-- A datagram whose parse is rejected leaves the transport, the router and every receiver / sender untouched. -/
 theorem handleRtpData_rejected (env : Env) (t : Transport) (data : Bytes) (h : Rtp.parse t.ids data = .valueError) :
